@@ -3,6 +3,7 @@ CONSTANTS
   GsubSteps = 2
   GposSteps = 2
   GenLen = 5
+  TxtLen = 6
 SPECIFICATION Spec
-INVARIANTS RunOK CallOK Sanity Emit
+INVARIANTS RunOK CallOK Sanity TextSanity Emit
 CHECK_DEADLOCK FALSE
